@@ -33,7 +33,7 @@ def plan(tier):
                 'every (offset, maximum) class; the answer is compared with a shadow model and pages '
                 'with the unpaged answer; a cell is (filter attribute set, requester class, result size '
                 'class, paging class)',
-        'min_monitor': {'locates_with_a_storage_status_mask': 1000, 'locates_on_changed_values': 300, 'changes_between_locates': 200, 'locates_compared_with_model': 800, 'pages_compared': 200, 'nonempty_results': 100},
+        'min_monitor': {'beside_answers_compared': 300, 'locates_with_a_storage_status_mask': 1000, 'locates_on_changed_values': 300, 'changes_between_locates': 200, 'locates_compared_with_model': 800, 'pages_compared': 200, 'nonempty_results': 100},
         'assumptions': ['filters on attributes the server does not store (Activation Date ...) are C13\'s '
                         'concern and are not generated here',
                         'ties in Initial Date may appear in any order that is stable across pages',
@@ -43,7 +43,7 @@ def plan(tier):
 
 def cases(tier, seed):
     n = 192 if tier == 'quick' else 1280
-    return [{'hist': i} for i in range(n)]
+    return [{'hist': i} for i in range(n)] + [{'beside': i} for i in range(16 if tier == 'quick' else 160)]
 
 
 class Shadow(object):
@@ -215,7 +215,67 @@ def change(ctx, srv, rng, shadows, uniq):
     return hot
 
 
+def run_beside(ctx, case):
+    """Searches while other clients search and change objects of their own: three clients (different users and versions),
+    each with objects that carry names, groups and application data no other client uses, locate by those values (alone,
+    combined, paged) and rename / regroup / activate their objects in between - from threads of their own with yields
+    injected.  No filter of one client matches an object of another, so every result list must be the one the same script
+    gets alone."""
+    from kv.monitors.concurrent import alone_vs_beside
+    rng = ctx.rng()
+    rig.install_clock(rig.VClock(step=0))
+    users = [(('alice', None), (1, 2)), (('bob', None), (2, 0)), (('carol', None), (1, 4)), (('dave', None), (1, 3))]
+    clients = rng.sample(users, 3)
+    with rig.scratch_dir() as d:
+        srv = rig.Server(d + '/db.sqlite')
+        try:
+            scripts, labels = [], []
+            for (u, g), v in clients:
+                mine = []
+                for i in range(rng.randrange(3, 7)):
+                    o = store.register(srv, rng.choice(('sym', 'secret', 'cert', 'opaque')), u, rng, names=['%s-n%d' % (u, i)],
+                                       groups=['%s-grp-%d' % (u, i % 2)], asi=[('%s-ns' % u, 'd%d' % (i % 2))], state='pre', real_keys=False)
+                    if o is not None:
+                        mine.append(o)
+                if not mine:
+                    ctx.unsure('setup of a C14 beside-history failed')
+                    return
+                frames, labs = [], []
+                for j in range(rng.randrange(8, 16)):
+                    k = rng.randrange(7)
+                    o = rng.choice(mine)
+                    if k == 0:
+                        op, lab = op_locate([rig.attr(A.NAME, name_value(rng.choice(o.names)))]), 'by-name'
+                    elif k == 1:
+                        op, lab = op_locate([rig.attr(A.OBJECT_GROUP, '%s-grp-%d' % (u, rng.randrange(2)))]), 'by-group'
+                    elif k == 2:
+                        op, lab = op_locate([rig.attr(A.OBJECT_GROUP, '%s-grp-%d' % (u, rng.randrange(2))), rig.attr(A.STATE, S.PRE_ACTIVE)],
+                                            maximum=rng.choice((None, 1, 2)), offset=rng.choice((None, 0, 1)) if v >= (1, 3) else None), 'by-group+state'
+                    elif k == 3:
+                        op, lab = op_locate([rig.attr(A.APPLICATION_SPECIFIC_INFORMATION, {'application_namespace': '%s-ns' % u,
+                                                                                          'application_data': 'd%d' % rng.randrange(2)})]), 'by-asi'
+                    elif k == 4:
+                        op, lab = op_locate([rig.attr(A.OBJECT_GROUP, '%s-moved' % u)]), 'by-new-group'
+                    elif k == 5 and v < (2, 0):
+                        op, lab = op_modify_attribute_1x(o.uid, rig.attr(A.OBJECT_GROUP, '%s-moved' % u, 0)), 'regroup'
+                    else:
+                        op, lab = op_activate(o.uid), 'activate'
+                    try:
+                        frames.append(rig.encode_request(rig.build_request(v, [op]), v))
+                        labs.append(lab)
+                    except Exception:
+                        pass
+                scripts.append(((u, g), frames))
+                labels.append(labs)
+            ctx.cell('beside', '+'.join('%d.%d' % v for _, v in clients))
+            alone_vs_beside(ctx, d, srv, scripts, rng, 'beside', labels, name='kv-c14')
+        finally:
+            srv.close()
+
+
 def run_case(ctx, case):
+    if 'beside' in case:
+        return run_beside(ctx, case)
     rng = ctx.rng()
     clock = rig.install_clock(rig.VClock(step=0))
     pols = rig.default_policies()
